@@ -58,13 +58,61 @@ func shake256Hex(data []byte) string {
 	return hex.EncodeToString(out)
 }
 
+// HashCache memoizes the per-file shake256 of byte-identical contents (same path, same bytes) so
+// that the reference digest of a served module that equals the original is not re-hashed for
+// every read. It never changes a result.
+type HashCache struct {
+	byPath map[string]cachedHash
+}
+
+type cachedHash struct {
+	data []byte
+	hex  string
+}
+
+// NewHashCache pre-hashes the given files.
+func NewHashCache(files ...map[string][]byte) *HashCache {
+	c := &HashCache{byPath: map[string]cachedHash{}}
+	for _, m := range files {
+		for p, d := range m {
+			c.byPath[p] = cachedHash{d, shake256Hex(d)}
+		}
+	}
+	return c
+}
+
+func (c *HashCache) hash(path string, data []byte) string {
+	if c != nil {
+		if e, ok := c.byPath[path]; ok && bytesEqual(e.data, data) {
+			return e.hex
+		}
+	}
+	return shake256Hex(data)
+}
+
+func bytesEqual(a, b []byte) bool {
+	if len(a) != len(b) {
+		return false
+	}
+	for i := range a {
+		if a[i] != b[i] {
+			return false
+		}
+	}
+	return true
+}
+
 // RefManifestDigest is the reference files digest: shake256 over the manifest text, one line
 // "shake256:<hex of shake256(content)>  <path>\n" per file, sorted by path.
-func RefManifestDigest(files map[string][]byte) string {
+func RefManifestDigest(files map[string][]byte, cache ...*HashCache) string {
+	var hc *HashCache
+	if len(cache) > 0 {
+		hc = cache[0]
+	}
 	var b strings.Builder
 	for _, p := range SortedKeys(files) {
 		b.WriteString("shake256:")
-		b.WriteString(shake256Hex(files[p]))
+		b.WriteString(hc.hash(p, files[p]))
 		b.WriteString("  ")
 		b.WriteString(p)
 		b.WriteString("\n")
@@ -74,16 +122,16 @@ func RefManifestDigest(files map[string][]byte) string {
 
 // RefB5Digest is the reference b5 module digest: shake256 over the files digest string followed
 // by the sorted dependency digest strings, joined with "\n" (no trailing newline).
-func RefB5Digest(files map[string][]byte, depDigests []string) string {
+func RefB5Digest(files map[string][]byte, depDigests []string, cache ...*HashCache) string {
 	deps := append([]string(nil), depDigests...)
 	sort.Strings(deps)
-	parts := append([]string{RefManifestDigest(files)}, deps...)
+	parts := append([]string{RefManifestDigest(files, cache...)}, deps...)
 	return "b5:" + shake256Hex([]byte(strings.Join(parts, "\n")))
 }
 
 // RefB4Digest is the reference b4 digest: the manifest digest over the module files plus the v1
 // buf.yaml / buf.lock side objects under their file names. Dependencies are not hashed.
-func RefB4Digest(files map[string][]byte, side map[string][]byte) string {
+func RefB4Digest(files map[string][]byte, side map[string][]byte, cache ...*HashCache) string {
 	all := make(map[string][]byte, len(files)+len(side))
 	for p, d := range files {
 		all[p] = d
@@ -91,7 +139,7 @@ func RefB4Digest(files map[string][]byte, side map[string][]byte) string {
 	for p, d := range side {
 		all[p] = d
 	}
-	return RefManifestDigest(all)
+	return RefManifestDigest(all, cache...)
 }
 
 // SideFiles returns the side objects by file name.
